@@ -74,6 +74,28 @@ func genFields(t *rapid.T) []F {
 func genRT(t *rapid.T) RTScript {
 	var s RTScript
 	n := rapid.IntRange(1, 30).Draw(t, "nops")
+	if rapid.IntRange(0, 7).Draw(t, "crowd") == 0 {
+		// a crowded dynamic table: 66..125 small distinct fields (a default table of 4096 octets holds about 120 of them),
+		// then fields sent long ago are repeated - the encoder refers to them by indices of 127 and more, which need the
+		// multi-octet integer form (wire ff xx)
+		k := rapid.IntRange(66, 125).Draw(t, "crowdN")
+		var fs []F
+		for j := 0; j < k; j++ {
+			fs = append(fs, F{N: fmt.Sprintf("k%d", j), V: "v"})
+			if len(fs) == 40 {
+				s.Ops = append(s.Ops, RTOp{Op: "block", Fields: fs})
+				fs = nil
+			}
+		}
+		if len(fs) > 0 {
+			s.Ops = append(s.Ops, RTOp{Op: "block", Fields: fs})
+		}
+		fs = nil
+		for j := 0; j < rapid.IntRange(1, 6).Draw(t, "crowdRepeat"); j++ {
+			fs = append(fs, F{N: fmt.Sprintf("k%d", rapid.IntRange(0, k-1).Draw(t, "crowdIdx")), V: "v"})
+		}
+		s.Ops = append(s.Ops, RTOp{Op: "block", Fields: fs, V: 1})
+	}
 	for i := 0; i < n; i++ {
 		switch rapid.IntRange(0, 5).Draw(t, "op") {
 		case 0:
@@ -172,6 +194,9 @@ func execRT(s RTScript) (v *vstat.Violation, classes []string) {
 				xenc.WriteField(xh.HeaderField{Name: f.N, Value: f.V, Sensitive: f.S})
 			}
 			block := append([]byte{}, buf.Bytes()...)
+			if op.V == 1 && len(block) > 0 && block[0] == 0xff {
+				classes = append(classes, "indexed-field-with-index>=127-into-a-crowded-table")
+			}
 			if !bytes.Equal(block, xbuf.Bytes()) {
 				return vstat.Violf("roundtrip|encoder-output-differs-from-pristine-x/net", "op %d: encoder output %x, pristine x/net v0.19.0 encoder %x", i, block, xbuf.Bytes()), classes
 			}
@@ -241,12 +266,12 @@ func countIndexable(fs []F) int {
 }
 
 func TestRoundTrip(t *testing.T) {
-	colRT.Mandatory("eviction", "size-update")
+	colRT.Mandatory("eviction", "size-update", "indexed-field-with-index>=127-into-a-crowded-table")
 	vstat.Run(t, vstat.Spec[RTScript]{Col: colRT, Quick: 8000, Thorough: 300000, Gen: genRT,
 		Exec: func(s RTScript) *vstat.Violation {
 			v, cl := execRT(s)
 			if v == nil {
-				nt := len(cl) == 2
+				nt := len(cl) >= 2
 				colRT.Case(fmt.Sprintf("%+v", s), nt, map[string]any{"ops": len(s.Ops), "classes": cl}, cl...)
 			}
 			return v
